@@ -262,6 +262,27 @@ theorem posAddCol_wf (p : Pos) (n : Int) (hw : p.wf) (hv : p.isValid = true) (hn
   show newOffs p.offs n < 4294967296
   omega
 
+/-! ### line / column -/
+
+theorem lineColFrom_zero (src : List UInt8) (line col : Nat) : lineColFrom line col src 0 = (line, col) := by
+  cases src <;> rfl
+
+theorem lineColFrom_succ : ∀ (src : List UInt8) (off line col : Nat) (b : UInt8), src[off]? = some b →
+    lineColFrom line col src (off + 1) =
+      (if b = 10 then ((lineColFrom line col src off).1 + 1, 1)
+       else ((lineColFrom line col src off).1, (lineColFrom line col src off).2 + 1))
+  | [], off, _, _, b, h => by simp at h
+  | x :: rest, 0, line, col, b, h => by
+    simp only [List.getElem?_cons_zero, Option.some.injEq] at h
+    subst h
+    simp only [lineColFrom]
+  | x :: rest, off + 1, line, col, b, h => by
+    simp only [List.getElem?_cons_succ] at h
+    simp only [lineColFrom]
+    split
+    · exact lineColFrom_succ rest off _ _ b h
+    · exact lineColFrom_succ rest off _ _ b h
+
 /-! ### position trees -/
 
 /-- `d` is a node of the subtree rooted at `t` (`t` itself included) -/
